@@ -58,10 +58,10 @@ where
     let want = curve.mul(&k, &pm);
     // plain paths: every curve point, every 256-bit k
     let mut t = rep_build::<G>(&pm, &c.rep);
-    cr("mul_assign", || t.mul_assign(repr(&k)))?;
+    cr("mul_assign", || G::op_mul_assign(&mut t, repr(&k)))?;
     expect::<G>("mul_assign", &t, &want, &k)?;
     let pa = aff_c::<G>(&pm);
-    let t = cr("CurveAffine::mul", || pa.mul(repr(&k)))?;
+    let t = cr("CurveAffine::mul", || G::op_aff_mul(&pa, repr(&k)))?;
     expect::<G>("CurveAffine::mul", &t, &want, &k)?;
     if !subgroup {
         info.class("plain-paths-only (point outside the subgroup)");
@@ -69,12 +69,12 @@ where
     }
     // table-driven paths, tables from the crate's own precomputation
     let mut pre3 = vec![G::Aff::zero(); 3];
-    cr("precomp_3", || pa.precomp_3(&mut pre3))?;
-    let t = cr("mul_precomp_3", || pa.mul_precomp_3(repr(&k), &pre3))?;
+    cr("precomp_3", || G::op_precomp_3(&pa, &mut pre3))?;
+    let t = cr("mul_precomp_3", || G::op_mul_precomp_3(&pa, repr(&k), &pre3))?;
     expect::<G>("mul_precomp_3", &t, &want, &k)?;
     let mut pre256 = vec![G::Aff::zero(); 256];
-    cr("precomp_256", || pa.precomp_256(&mut pre256))?;
-    let t = cr("mul_precomp_256", || pa.mul_precomp_256(repr(&k), &pre256))?;
+    cr("precomp_256", || G::op_precomp_256(&pa, &mut pre256))?;
+    let t = cr("mul_precomp_256", || G::op_mul_precomp_256(&pa, repr(&k), &pre256))?;
     expect::<G>("mul_precomp_256", &t, &want, &k)?;
     // wNAF, both staging orders, k < 2^255
     let k255 = c.k.build255();
@@ -329,13 +329,13 @@ where
     let k = Z::one() << i;
     let pa = aff_c::<G>(pm);
     let mut t = proj_c::<G>(pm);
-    cr("mul_assign", || t.mul_assign(repr(&k)))?;
+    cr("mul_assign", || G::op_mul_assign(&mut t, repr(&k)))?;
     expect::<G>(&format!("mul_assign(2^{})", i), &t, want, &k)?;
-    let t = cr("mul", || pa.mul(repr(&k)))?;
+    let t = cr("mul", || G::op_aff_mul(&pa, repr(&k)))?;
     expect::<G>(&format!("CurveAffine::mul(2^{})", i), &t, want, &k)?;
-    let t = cr("mul_precomp_3", || pa.mul_precomp_3(repr(&k), pre3))?;
+    let t = cr("mul_precomp_3", || G::op_mul_precomp_3(&pa, repr(&k), pre3))?;
     expect::<G>(&format!("mul_precomp_3(2^{})", i), &t, want, &k)?;
-    let t = cr("mul_precomp_256", || pa.mul_precomp_256(repr(&k), pre256))?;
+    let t = cr("mul_precomp_256", || G::op_mul_precomp_256(&pa, repr(&k), pre256))?;
     expect::<G>(&format!("mul_precomp_256(2^{})", i), &t, want, &k)?;
     if i < 255 {
         let pp = proj_c::<G>(pm);
@@ -355,9 +355,9 @@ where
     let pm = G::pool().sub[3].1.clone();
     let pa = aff_c::<G>(&pm);
     let mut pre3 = vec![G::Aff::zero(); 3];
-    pa.precomp_3(&mut pre3);
+    G::op_precomp_3(&pa, &mut pre3);
     let mut pre256 = vec![G::Aff::zero(); 256];
-    pa.precomp_256(&mut pre256);
+    G::op_precomp_256(&pa, &mut pre256);
     let mut want = pm.clone();
     for i in 0..256usize {
         let case = json!({"group": G::NAME, "bit": i});
@@ -384,9 +384,9 @@ fn replay_single_bits(v: &Value) -> Result<(), String> {
         let pm = G::pool().sub[3].1.clone();
         let pa = aff_c::<G>(&pm);
         let mut pre3 = vec![G::Aff::zero(); 3];
-        pa.precomp_3(&mut pre3);
+        G::op_precomp_3(&pa, &mut pre3);
         let mut pre256 = vec![G::Aff::zero(); 256];
-        pa.precomp_256(&mut pre256);
+        G::op_precomp_256(&pa, &mut pre256);
         let want = G::curve().mul(&(Z::one() << i), &pm);
         single_bit_case::<G>(i, &pm, &want, &pre3, &pre256)
     }
@@ -568,11 +568,11 @@ pub fn def() -> PropDef {
         rule: "(P, k) with P from every point class (arbitrary curve points for the plain paths, subgroup points for table-driven and wNAF paths) in generated Jacobian representatives and k from the structured scalar generator (0, 1, r-1, r, r+1, every single bit, bit pairs, masks 2^n-1, patterns straddling 64-bit words and 32-bit chunks, 2^255-1, 2^255, 2^256-1, sparse, uniform), through mul_assign, CurveAffine::mul, mul_precomp_3, mul_precomp_256 (k < 2^256), Wnaf in both staging orders and shared() variants (k < 2^255); explicit windows via the hook path; histories reusing one context; exhaustive: 256 single-bit scalars x all paths x both groups, every recommended window 4..=16 through the public path, recommendation functions. Oracle: model [k]P. Non-trivial = k not in {0,1} and P != O (histories: >= 2 phases and >= 2 results); distinct = distinct cases",
         needs_pairing: false,
         subs: vec![
-            Box::new(Sub { name: "g1-paths", rule: "G1: (P, rep, k) through all applicable paths", quick: 900, thorough: 30_000, strategy: || boxed(mul_case_strategy(0)), check: check_mul_any }),
-            Box::new(Sub { name: "g2-paths", rule: "G2: (P, rep, k) through all applicable paths", quick: 600, thorough: 15_000, strategy: || boxed(mul_case_strategy(1)), check: check_mul_any }),
-            Box::new(Sub { name: "recode", rule: "wnaf_form for every window 2..=22: digits sum to k, are zero or odd, index inside the table", quick: 20_000, thorough: 1_000_000, strategy: || boxed(recode_strategy()), check: check_recode }),
-            Box::new(Sub { name: "hook-windows", rule: "wnaf_table / wnaf_form / wnaf_exp with explicit windows 2..=13 on generated (P, k); table entries [2i+1]P sampled", quick: 500, thorough: 15_000, strategy: || boxed(hook_strategy_small()), check: check_hook_any }),
-            Box::new(Sub { name: "context-history", rule: "one Wnaf context reused over generated phases (base-then-scalars / scalar-then-bases) compared with the model and with a fresh context", quick: 300, thorough: 10_000, strategy: || boxed(history_strategy()), check: check_history_any }),
+            Box::new(Sub { name: "g1-paths", rule: "G1: (P, rep, k) through all applicable paths", quick: 2_250, thorough: 30_000, strategy: || boxed(mul_case_strategy(0)), check: check_mul_any }),
+            Box::new(Sub { name: "g2-paths", rule: "G2: (P, rep, k) through all applicable paths", quick: 1_500, thorough: 15_000, strategy: || boxed(mul_case_strategy(1)), check: check_mul_any }),
+            Box::new(Sub { name: "recode", rule: "wnaf_form for every window 2..=22: digits sum to k, are zero or odd, index inside the table", quick: 50_000, thorough: 1_000_000, strategy: || boxed(recode_strategy()), check: check_recode }),
+            Box::new(Sub { name: "hook-windows", rule: "wnaf_table / wnaf_form / wnaf_exp with explicit windows 2..=13 on generated (P, k); table entries [2i+1]P sampled", quick: 1_250, thorough: 15_000, strategy: || boxed(hook_strategy_small()), check: check_hook_any }),
+            Box::new(Sub { name: "context-history", rule: "one Wnaf context reused over generated phases (base-then-scalars / scalar-then-bases) compared with the model and with a fresh context", quick: 750, thorough: 10_000, strategy: || boxed(history_strategy()), check: check_history_any }),
             Box::new(EnumSub { name: "single-bits", rule: "all 256 single-bit scalars x {mul_assign, CurveAffine::mul, mul_precomp_3, mul_precomp_256, Wnaf both orders (bits < 255)} x {G1, G2} (enumerated)", run: run_single_bits, replay: replay_single_bits, exhaustive: true }),
             Box::new(EnumSub { name: "all-windows", rule: "public staging path for every window the recommendation function returns (4..=16 for G1, 4..=15 for G2) and hook path for windows 2..=14 (quick) / 2..=22 (thorough), both groups, boundary scalars (enumerated)", run: run_windows, replay: replay_windows, exhaustive: true }),
             Box::new(EnumSub { name: "recommendations", rule: "recommended_wnaf_for_num_scalars(n) for all n <= 2^18 (quick) / 2^22 (thorough) plus 2^e+-1 up to usize::MAX; recommended_wnaf_for_scalar for every bit length 0..=256: always in 2..=22 (enumerated; evidence counts each returned window value once)", run: run_recommendations, replay: replay_recommendations, exhaustive: true }),
